@@ -1587,7 +1587,11 @@ _dispatch_wait_compute_wlh(dispatch_lane_t dq, dispatch_sync_context_t dsc)
 	uint64_t tq_state = _dispatch_wait_prepare(tq);
 
 	if (_dq_state_is_suspended(tq_state) ||
-			_dq_state_is_base_anon(tq_state)) {
+			_dq_state_is_base_anon(tq_state) ||
+			unlikely(dx_hastypeflag(tq, QUEUE_ROOT))) {
+		// a legacy retarget updates the role and do_targetq separately: dq can
+		// be seen as an inner queue while it still (or already) targets a root
+		// queue, which has no target of its own to recurse into
 		dsc->dsc_release_storage = false;
 		dsc->dc_data = DISPATCH_WLH_ANON;
 	} else if (_dq_state_is_base_wlh(tq_state)) {
